@@ -252,7 +252,7 @@ func (ia *Intervals) ExactFP(root *Term) *Term {
 		if t.Op == OFRound {
 			mode, t = t.Aux, t.A[0]
 		}
-		if mode != RTZ && mode != RTP && mode != RTN {
+		if mode != RTZ && mode != RTP && mode != RTN && mode != RNA {
 			return nil
 		}
 		a := ia.dy(t, memo)
@@ -269,6 +269,9 @@ func (ia *Intervals) ExactFP(root *Term) *Term {
 				q = SDiv(a.n, den)
 			case RTP:
 				q = Ite(Slt(zero, a.n), SDiv(Add(a.n, dm1), den), SDiv(a.n, den))
+			case RNA: // math.Round: half away from zero
+				half := BVS(int64(1)<<uint(a.s-1), 64)
+				q = Ite(Slt(a.n, zero), Neg(SDiv(Add(Neg(a.n), half), den)), SDiv(Add(a.n, half), den))
 			default:
 				q = Ite(Slt(a.n, zero), SDiv(Sub(a.n, dm1), den), SDiv(a.n, den))
 			}
